@@ -75,14 +75,23 @@ fn ref_cell(m: &Value, r: &Value) -> Result<Value, String> {
         _ => Err("bad mapping".into()),
     }
 }
-pub fn ref_csv_row(format: &Value, r: &Value) -> String {
-    // header order: reverse of the mapping's key order when not sorted (as the header itself is rendered)
+/// column order of the header: byte-order sorted keys when `sorted`, otherwise the reverse of the mapping's key order
+pub fn ref_header_keys(format: &Value) -> Vec<String> {
     let mapping = format["mapping"].as_object().unwrap();
-    let keys: Vec<&String> = mapping.keys().rev().collect();
-    keys.iter().map(|k| ref_cell(&mapping[*k], r).map(|c| c.to_string()).unwrap_or_default()).collect::<Vec<_>>().join(",")
+    if format["sorted"] == json!(true) {
+        let mut k: Vec<String> = mapping.keys().cloned().collect();
+        k.sort();
+        k
+    } else {
+        mapping.keys().rev().cloned().collect()
+    }
+}
+pub fn ref_csv_row(format: &Value, r: &Value) -> String {
+    let mapping = format["mapping"].as_object().unwrap();
+    ref_header_keys(format).iter().map(|k| ref_cell(&mapping[k], r).map(|c| c.to_string()).unwrap_or_default()).collect::<Vec<_>>().join(",")
 }
 pub fn ref_csv_header(format: &Value) -> String {
-    format["mapping"].as_object().unwrap().keys().rev().cloned().collect::<Vec<_>>().join(",")
+    ref_header_keys(format).join(",")
 }
 
 pub struct Fixture {
@@ -460,6 +469,9 @@ fn histories(fx: &Fixture, tier: Tier, st: &mut Stats) {
             f
         }),
         ("csv_missing_path", json!({"type": "csv", "sorted": false, "mapping": {"qid": "request.qid", "dist": "route.traversal_summary.distance", "nope": "does.not.exist"}})),
+        // column names whose byte order differs from their case-insensitive order (header and rows are rendered at two sites)
+        ("csv_sorted_mixed_case", json!({"type": "csv", "sorted": true, "mapping": {"qid": "request.qid", "Zone": "request.origin_vertex", "tripId": {"optional": "route.traversal_summary.distance"}, "trip_distance": {"sum": [{"optional": "route_edges"}, {"optional": "iterations"}]}, "n": {"optional": "error"}}})),
+        ("csv_unsorted_mixed_case", json!({"type": "csv", "sorted": false, "mapping": {"Zone": "request.origin_vertex", "qid": "request.qid", "tripId": {"optional": "route.traversal_summary.distance"}, "a_b": {"optional": "error"}}})),
     ];
     // run contents: indices into the query alphabet
     let contents: Vec<Vec<usize>> = vec![vec![0], vec![2], vec![0, 2], vec![1, 4, 3], vec![5, 0]];
@@ -498,6 +510,7 @@ fn histories(fx: &Fixture, tier: Tier, st: &mut Stats) {
                     let comp = format!("append_histories.{}", fname);
                     let case = || json!({"format": fname, "persistence": persist, "parallelism": par, "runs": seq.iter().map(|c| contents[*c].clone()).collect::<Vec<_>>()});
                     let mut expected_ids: Vec<String> = vec![];
+                    let mut all_returned: Vec<Value> = vec![];
                     let mut ok = true;
                     for (ri, c) in seq.iter().enumerate() {
                         st.transitions += 1;
@@ -526,6 +539,7 @@ fn histories(fx: &Fixture, tier: Tier, st: &mut Stats) {
                                 break;
                             }
                             Ok(Ok(resp)) => {
+                                all_returned.extend(resp.iter().cloned());
                                 if persist.starts_with("persist") {
                                     // writing never removes or replaces information in the response handed back
                                     for (q, want) in queries.iter().zip(alone_r.iter()) {
@@ -553,18 +567,24 @@ fn histories(fx: &Fixture, tier: Tier, st: &mut Stats) {
                     let text = std::fs::read_to_string(&path).unwrap_or_default();
                     let lines: Vec<&str> = text.split('\n').filter(|l| !l.is_empty()).collect();
                     if format["type"] == json!("csv") {
-                        let header = if format["sorted"] == json!(true) {
-                            let mut k: Vec<String> = format["mapping"].as_object().unwrap().keys().cloned().collect();
-                            k.sort();
-                            k.join(",")
-                        } else {
-                            ref_csv_header(format)
-                        };
+                        let header = ref_csv_header(format);
                         let n_headers = lines.iter().filter(|l| **l == header).count();
                         if n_headers == 1 && lines.first().copied() == Some(header.as_str()) {
                             st.pass("single_header_first");
                         } else {
                             st.violation(&comp, "single_header_first", seq.len() as u64, || format!("{} header lines; first line {:?}", n_headers, lines.first()), case);
+                        }
+                        // rows = the mapping applied to the responses, cell by cell in header order (responses kept in memory only)
+                        if persist.starts_with("persist") && fname != &"csv_missing_path" {
+                            let mut want: Vec<String> = all_returned.iter().map(|r| ref_csv_row(format, r)).collect();
+                            let mut got: Vec<String> = lines.iter().filter(|l| **l != header).map(|l| l.to_string()).collect();
+                            want.sort();
+                            got.sort();
+                            if want == got {
+                                st.pass("rows_follow_mapping_in_header_order");
+                            } else {
+                                st.violation(&comp, "rows_follow_mapping_in_header_order", seq.len() as u64, || format!("header {:?}: rows {:?} want {:?}", header, got, want), case);
+                            }
                         }
                         if lines.len() - n_headers.min(lines.len()) == expected_ids.len() {
                             st.pass("rows_accumulate_across_runs");
